@@ -3,6 +3,7 @@
 From Coq Require Import List ZArith NArith Bool.
 From RRSS Require Import Base.Outcome Base.Chars Base.F64 Exec.Val Exec.Ops Front.Ast Exec.Env Exec.Interp.
 From RRSS Require Import Proofs.InterpInv Proofs.InterpLaws Proofs.ArrayLaws Proofs.InterpPure.
+From RRSS Require Import Proofs.InterpPronoun.
 Import ListNotations.
 
 (** the call protocol: look the function up, check the arity, evaluate the arguments, bind them in
@@ -127,6 +128,33 @@ Theorem C05_assignment_frame_on_error :
   frame_ok n s = true -> exec_stmt prof f s xs e = XErr err e' -> find_var n (scopes e') = find_var n (scopes e).
 Proof. exact assignment_frame_err. Qed.
 
+(** what `it` refers to after a statement: an assignment, an increment or a decrement leave it on their target
+    (whatever their operands named on the way), reading a variable leaves it on that variable, and a conditional
+    or a function call that completed leave it on nothing *)
+Theorem C05_assignment_sets_pronoun :
+  forall prof f x r first rest op xs e xs' e',
+  exec_stmt prof (S (S f)) (SAssign (LIdent (IVar x) r) first rest op) xs e = XOk xs' e' -> last_access e' = Some x.
+Proof. exact assign_sets_pronoun. Qed.
+
+Theorem C05_build_up_sets_pronoun :
+  forall prof f x r k xs e xs' e',
+  exec_stmt prof (S f) (SInc (IVar x) r k) xs e = XOk xs' e' -> last_access e' = Some x.
+Proof. exact inc_sets_pronoun. Qed.
+
+Theorem C05_reading_sets_pronoun :
+  forall prof f x r e v e', produce_primary prof (S f) (PIdent (IVar x) r) e = XOk v e' -> last_access e' = Some x.
+Proof. exact read_sets_pronoun. Qed.
+
+Theorem C05_conditional_clears_pronoun :
+  forall prof f c th el xs e xs' e',
+  exec_stmt prof (S f) (SIf c th el) xs e = XOk xs' e' -> last_access e' = None.
+Proof. exact if_clears_pronoun. Qed.
+
+Theorem C05_call_clears_pronoun :
+  forall prof f n args e v e', call_function prof (S f) n args e = XOk v e' -> last_access e' = None.
+Proof. exact call_clears_pronoun. Qed.
+
 Print Assumptions C05_scopes_restored_stmt.
 Print Assumptions C05_body_locals_do_not_leak.
 Print Assumptions C05_assignment_frame.
+Print Assumptions C05_assignment_sets_pronoun.
